@@ -23,6 +23,9 @@ ASSUMPTIONS = [
     "selector-symbolic only: the clause subset, the spelling of each clause and the permutation (Lehmer code) are "
     "symbolic selectors realised per path; the Builder runs under NoTracing() on concrete text; the solver's role "
     "is the proof that the bounded choice space was exhausted",
+    "indirect-path clauses (via of framer/frame/do/aux, from/for/qua of do) are spelled with no relation, one-level "
+    "relations with and without name, and two-level relations whose last name is omitted (`of frame [name] of framer`, "
+    "`of actor [name] of frame`, three levels in the thorough tier); log/loggee/server paths take no relation clause",
     "clause pools per verb are the doc-string clauses of the build method (plus the implemented `in order` clause of "
     "framer/logger/server); distinct keys per clause; at most one deliberately invalid clause value per command",
     "canonical order = doc-string order; compared: flobuild.dump_houses (no `human` text, no line counts) or "
@@ -48,11 +51,21 @@ framer ff be active first fa
   frame fb in fa
 """
 
+# two-level relations whose LAST relation name is omitted: the nested optional name sits directly in
+# front of the following clause keyword (label class via[of-nested-relation])
+VIA_NESTED_Q = [("via n of frame of framer", "via[of-frame-of-framer]"),
+                ("via n of frame fa of framer", "via[of-frame-name-of-framer]"),
+                ("via n of actor of frame", "via[of-actor-of-frame]"),
+                ("via n of actor nm of frame", "via[of-actor-name-of-frame]")]
+VIA_NESTED_T = VIA_NESTED_Q + [("via n of actor of frame of framer", "via[of-actor-of-frame-of-framer]"),
+                               ("via n of actor nm of frame fa of framer", "via[of-actor-name-of-frame-name-of-framer]"),
+                               ("via .n of frame main of framer", "via[abs-of-frame-main-of-framer]")]
 VIA_Q = [("via n", "via[rel]"), ("via .n", "via[abs]"), ("via n of framer", "via[of-framer]"),
-         ("via n of frame", "via[of-frame]"), ("via n of actor", "via[of-actor]"), ("via n of me", "via[of-me]")]
+         ("via n of frame", "via[of-frame]"), ("via n of actor", "via[of-actor]"), ("via n of me", "via[of-me]")] + VIA_NESTED_Q
 VIA_T = VIA_Q + [("via n of framer fx", "via[of-framer-name]"), ("via n of frame fa", "via[of-frame-name]"),
-                 ("via n of root", "via[of-root]"), ("via me.n", "via[me-inline]"),
-                 ("via n of frame of framer", "via[of-frame-of-framer]")]
+                 ("via n of root", "via[of-root]"), ("via me.n", "via[me-inline]")] + VIA_NESTED_T[len(VIA_NESTED_Q):]
+NESTED = set(l for _, l in VIA_NESTED_T) | set(["from[of-frame-of-framer]", "from[of-actor-of-frame]",
+                                                 "for[of-frame-of-framer]", "qua[of-actor-of-frame]"])
 
 # verb -> dict(head, tail, before, after, indent, clauses=[(key, [(text,label),...])]) in canonical order
 def specs(tier):
@@ -74,11 +87,15 @@ def specs(tier):
         ("at", [("at enter", "at"), ("at zz", "at[bad]")]),
         ("via", via),
         ("with", [("with a 1", "with"), ("with 7", "with[value]")]),
-        ("from", [("from b in .sm", "from"), ("from q of frame", "from[of-frame]")]),
+        ("from", [("from b in .sm", "from"), ("from q of frame", "from[of-frame]"),
+                  ("from q of frame of framer", "from[of-frame-of-framer]")] +
+                 ([] if tier == "quick" else [("from q of actor of frame", "from[of-actor-of-frame]")])),
         ("per", [("per k p", "per"), ("per k2 .sx j \"me.z\"", "per[two]")]),
-        ("for", [("for pth in .sp", "for")]),
+        ("for", [("for pth in .sp", "for")] +
+                ([] if tier == "quick" else [("for pth in sq of frame of framer", "for[of-frame-of-framer]")])),
         ("cum", [("cum c 1", "cum")]),
-        ("qua", [("qua b in .sm", "qua")]),
+        ("qua", [("qua b in .sm", "qua")] +
+                ([] if tier == "quick" else [("qua b in sq of actor of frame", "qua[of-actor-of-frame]")])),
     ])
     S["logger"] = dict(head="logger l2", tail="", before="", after="", clauses=[
         ("to", [("to /tmp/verif_c15_x", "to")]),
@@ -152,8 +169,10 @@ def outcome(spec, clause_texts):
 
 def label_class(label):
     """the construct a clause spelling stands for (counterexample classes name constructs, not spellings)"""
-    if label in ("via[of-framer]", "via[of-frame]", "via[of-actor]", "via[of-frame-of-framer]"):
-        return "via[of-relation]"          # ends in a relation keyword whose name is optional
+    if label in NESTED:                    # two-level relation, the nested (last) name omitted
+        return label.split("[")[0] + "[of-nested-relation]"
+    if label in ("via[of-framer]", "via[of-frame]", "via[of-actor]", "from[of-frame]"):
+        return label.split("[")[0] + "[of-relation]"   # ends in a relation keyword whose name is optional
     if label.endswith("[bad]") or label.endswith("[dangling]"):
         return label
     return label.split("[")[0]
